@@ -1,1 +1,120 @@
-//! Kani harnesses compiled inside radicle-node (module `verif_kani` of the hooked file).
+//! Kani harnesses compiled inside `radicle_node::service::limiter` (module `verif_kani`).
+//! C17 — rate limiting admits at most capacity plus refill.
+#![allow(dead_code, unused_imports)]
+use super::*;
+use std::net::{IpAddr, Ipv4Addr, Ipv6Addr};
+
+/// `K` requests at arbitrary non-decreasing times against one bucket created - as
+/// `RateLimiter::limit` does - at the time of the first request.  For every sub-window `i..=j` of
+/// the requests: admitted(i..=j) <= capacity + rate * floor((t_j - t_i) / 1s).
+/// The comparison is made in f64 with a relative slack of 1e-9 (K roundings of 2^-53 each are far
+/// below it); the slack is part of the claim.
+fn window_bound<const K: usize>(rate: f64) {
+    let cap: usize = kani::any();
+    kani::assume(cap <= 1 << 20);
+    let t0: u64 = kani::any();
+    kani::assume(t0 < 1 << 40);
+    let mut t = [0u64; K];
+    let mut ok = [false; K];
+    t[0] = t0;
+    let mut b = TokenBucket::new(cap, rate, LocalTime::from_millis(t0 as u128));
+    let mut i = 0;
+    while i < K {
+        if i > 0 {
+            let d: u64 = kani::any();
+            kani::assume(d < 1 << 32); // gaps up to ~49 days
+            t[i] = t[i - 1] + d;
+        }
+        ok[i] = b.take(LocalTime::from_millis(t[i] as u128));
+        assert!(b.tokens >= 0.0 && b.tokens <= b.capacity, "C17: token count outside [0, capacity]");
+        i += 1;
+    }
+    let mut i = 0;
+    while i < K {
+        let mut admitted = 0u32;
+        let mut j = i;
+        while j < K {
+            if ok[j] {
+                admitted += 1;
+            }
+            let secs = (t[j] - t[i]) / 1000;
+            let bound = cap as f64 + rate * secs as f64;
+            assert!(
+                (admitted as f64) <= bound * (1.0 + 1e-9) + 1e-9,
+                "C17: more requests admitted in a window than capacity + rate * seconds"
+            );
+            j += 1;
+        }
+        i += 1;
+    }
+    kani::cover!(ok[0] && !ok[K - 1]); // burst exhausted
+    kani::cover!(rate == 0.0 || (!ok[K - 2] && ok[K - 1])); // refilled after being limited
+}
+
+macro_rules! window_harness {
+    ($name:ident, $k:expr, $rate:expr) => {
+        #[kani::proof]
+        #[kani::unwind(8)]
+        fn $name() {
+            window_bound::<{ $k }>($rate)
+        }
+    };
+}
+window_harness!(c17_window_k3_rate_0, 3, 0.0);
+window_harness!(c17_window_k3_rate_0p1, 3, 0.1);
+window_harness!(c17_window_k3_rate_0p2, 3, 0.2);
+window_harness!(c17_window_k3_rate_third, 3, 1.0 / 3.0);
+window_harness!(c17_window_k3_rate_0p5, 3, 0.5);
+window_harness!(c17_window_k3_rate_1, 3, 1.0);
+window_harness!(c17_window_k3_rate_2p5, 3, 2.5);
+window_harness!(c17_window_k3_rate_10, 3, 10.0);
+window_harness!(c17_window_k4_rate_0p2, 4, 0.2);
+window_harness!(c17_window_k4_rate_1, 4, 1.0);
+window_harness!(c17_window_k5_rate_0p2, 5, 0.2);
+window_harness!(c17_window_k5_rate_2p5, 5, 2.5);
+
+/// The address classifier behind "non-routable addresses are never limited": for every IPv4
+/// address, `address::is_routable` is false exactly on private / loopback / link-local /
+/// broadcast / documentation / 0.0.0.0/8 addresses (192.0.0.9 and 192.0.0.10 excepted), and
+/// every IPv6 address counts as routable.  `RateLimiter::limit` itself (HashMap / HashSet state)
+/// is not encodable (DESIGN §8); that it returns `false` right after this test is read off the
+/// source and is outside the claim.
+#[kani::proof]
+#[kani::unwind(6)]
+fn c17_is_routable_classifies_every_ipv4() {
+    let o: [u8; 4] = kani::any();
+    let ip = Ipv4Addr::new(o[0], o[1], o[2], o[3]);
+    let special = o == [192, 0, 0, 9] || o == [192, 0, 0, 10];
+    let non_routable = o[0] == 10
+        || (o[0] == 172 && (o[1] & 0xf0) == 16)
+        || (o[0] == 192 && o[1] == 168)
+        || o[0] == 127
+        || (o[0] == 169 && o[1] == 254)
+        || o == [255, 255, 255, 255]
+        || (o[0] == 192 && o[1] == 0 && o[2] == 2)
+        || (o[0] == 198 && o[1] == 51 && o[2] == 100)
+        || (o[0] == 203 && o[1] == 0 && o[2] == 113)
+        || o[0] == 0;
+    let r = address::is_routable(&IpAddr::V4(ip));
+    assert!(r == (special || !non_routable), "C17: is_routable disagrees with the documented address classes");
+    kani::cover!(!r && o[0] == 172);
+    kani::cover!(r && o[0] == 172);
+    let v6: [u8; 16] = kani::any();
+    assert!(address::is_routable(&IpAddr::V6(Ipv6Addr::from(v6))));
+}
+
+struct Tok(usize, f64);
+impl AsTokens for Tok {
+    fn capacity(&self) -> usize {
+        self.0
+    }
+    fn rate(&self) -> f64 {
+        self.1
+    }
+}
+
+#[cfg(test)]
+mod replay {
+    use super::*;
+    include!("/verif/replays/active/limiter.rs");
+}
